@@ -168,6 +168,15 @@ def rule_auth(ctx):
     ctx.ob("C17.a", "the session table is written only by the login handler", not bad and bool(writers), m.path)
     for q, n in bad:
         ctx.violation("C17.a", "server", q, n, m.loc(n), f"`{q}` writes the session table: a query/refused request must touch no session")
+    # what the login handler does to the table is *add* its own fresh token: it ends nobody's session (a token handed out stays
+    # valid, with its variables and context, exactly as the in-process connection it stands for stays usable)
+    removals = [w for w in writers if w not in bad and (isinstance(w[1], ast.Delete) or (isinstance(w[1], ast.Call) and w[1].func.attr in ("pop", "clear", "popitem")))]
+    ctx.ob("C17.a", "a login adds its session and removes nobody else's", not removals, m.path)
+    for q, n in removals:
+        ctx.violation("C17.a", "server", q, n, m.loc(n),
+                      f"`{q}` removes entries from the session table while logging a client in: a token that is still in use is refused with "
+                      f"401 'User must login again' and its session state (variables, current schema) is gone — the same sequence on an "
+                      f"in-process connection keeps answering")
 
 
 class LoginHooks(Hooks):
